@@ -169,3 +169,78 @@ def run(ctx, rep):
             rep.violation('R11.3', vkey('R11.3', DS_SEEK, 'seek-bound', ''), S.loc(S.span),
                           'DiskSlice::seek accepts an offset beyond the slice size')
     rep.counts['R11.sites'] = n
+
+
+# ---------------------------------------------------------------------------------------------
+# R11.4  the cursor of a DiskSlice moves by what was actually transferred
+
+def run_slice_cursor(ctx, rep):
+    """DiskSlice::read adds the count the device returned (a short read must not skip bytes: `read_exact` continues at
+    the cursor); DiskSlice::write adds the clipped length and hands exactly that many bytes to EVERY mirror with
+    `write_all` (a short write to one copy would leave the copies different)."""
+    from rules.c02 import origin, single_def
+    facts, eff = ctx.facts, ctx.effects
+    R = facts.fns.get(DS_READ)
+    if R is None:
+        rep.machinery('ANCHOR-MISSING ' + DS_READ)
+    else:
+        d = Deps(R)
+        devb = {b for b, t in R.calls() if (t.get('callee') or '').endswith('io::Read::read')}
+        defs = single_def(R)
+        ok = None
+        for bi in sorted(R.reachable()):
+            for s in R.blocks[bi]['stmts']:
+                if s['k'] != 'assign' or not s['lhs']['p'] or [e.get('n') for e in s['lhs']['p'] if 'f' in e][-1:] != ['offset']:
+                    continue
+                toks = d.of_operand(s['rv']['a']) if s['rv']['k'] in ('use', 'cast') else set()
+                this = False
+                for bj in R.reachable():
+                    for s2 in R.blocks[bj]['stmts']:
+                        if s2['k'] == 'assign' and s2['rv']['k'] == 'binop' and s2['rv']['op'].startswith('Add') and \
+                                ('local', s2['lhs']['l']) in toks | {('local', s['lhs']['l'])}:
+                            for x in (s2['rv']['a'], s2['rv']['b']):
+                                if origin(R, defs, x, devb, through_casts=True) == 'device-count':
+                                    this = True
+                ok = this if ok is None else (ok and this)
+        rep.oblige('R11.4', DS_READ, ok=bool(ok), nontrivial=True,
+                   sample={'fn': DS_READ, 'rule': 'offset += count returned by the device read'})
+        if ok is None:
+            rep.machinery('ANCHOR DiskSlice::read: no store to `offset` found')
+        elif not ok:
+            rep.violation('R11.4', vkey('R11.4', DS_READ, 'cursor-advance', ''), R.loc(R.span),
+                          'DiskSlice::read does not advance its cursor by the count the device returned: after a short read '
+                          '(legal for any storage) read_exact continues at the wrong position, so a table entry that straddles '
+                          'the boundary is decoded from the wrong bytes')
+    W = facts.fns.get(DS_WRITE)
+    if W is None:
+        rep.machinery('ANCHOR-MISSING ' + DS_WRITE)
+    else:
+        d = Deps(W)
+        raw = [b for b, t in W.calls() if (t.get('callee') or '').endswith('io::Write::write')]
+        allw = [b for b, t in W.calls() if (t.get('callee') or '').endswith('io::Write::write_all')]
+        loops = W.loops()
+        in_loop = lambda b: any(b in body for body in loops.values())
+        ok = bool(allw) and not raw and all(in_loop(b) for b in allw)
+        # the count returned / added to the cursor is the clipped length, not something a device call returned
+        for bi in W.reachable():
+            for s in W.blocks[bi]['stmts']:
+                if s['k'] == 'assign' and s['lhs']['p'] and [e.get('n') for e in s['lhs']['p'] if 'f' in e][-1:] == ['offset']:
+                    toks = d.of_operand(s['rv']['a']) if s['rv']['k'] in ('use', 'cast') else set()
+                    if any(tk[0] == 'call' and tk[1].endswith(('io::Write::write', 'io::Read::read')) for tk in toks):
+                        ok = False
+        rep.oblige('R11.4', DS_WRITE, ok=ok, nontrivial=True,
+                   sample={'fn': DS_WRITE, 'write_all_sites': len(allw), 'raw_write_sites': len(raw),
+                           'rule': 'every mirror receives exactly the clipped length (write_all inside the mirror loop)'})
+        if not ok:
+            rep.violation('R11.4', vkey('R11.4', DS_WRITE, 'exact-mirror-transfer', ''), W.loc(W.span),
+                          'DiskSlice::write does not hand exactly the clipped length to every mirror with write_all (raw write '
+                          'sites: %d): a short write to one copy leaves the table copies different while the caller is told the '
+                          'bytes were written' % len(raw))
+
+
+_run_11 = run
+
+
+def run(ctx, rep):
+    _run_11(ctx, rep)
+    run_slice_cursor(ctx, rep)
